@@ -45,6 +45,11 @@ Unit(
         "*": [("passes-through", "exc == ev(-1).exc")],
     },
     canary="result is None",
+    ghost={"model_exprs": {
+        # what the processor's own error carried when it was raised
+        "raised_line": "after(ev(-1), exc.line)", "raised_col": "after(ev(-1), exc.col)",
+        "raised_filename": "after(ev(-1), exc.filename)", "raised_nchar": "after(ev(-1), exc.nchar)",
+    }},
 )
 
 
@@ -67,8 +72,10 @@ def _replay_process(model, rec):
     line, col = prim(model.get("line"), 3), prim(model.get("col"), 4)
     filename, nchar = prim(model.get("filename"), "f.m"), prim(model.get("nchar"), 7)
 
+    given = {f: prim(model.get("raised_" + f), None) for f in ("line", "col", "filename", "nchar")}
+
     def proc(_):
-        raise TextXError("boom")
+        raise TextXError("boom", **given)
 
     mm = TextXMetaModel.__new__(TextXMetaModel)
     mm._obj_processors = {"T": proc}
@@ -76,9 +83,11 @@ def _replay_process(model, rec):
     try:
         mm.process(object(), "T", filename=filename, col=col, line=line, nchar=nchar)
     except TextXError as e:
-        for f, want in (("line", line), ("col", col), ("filename", filename), ("nchar", nchar)):
+        for f, sup in (("line", line), ("col", col), ("filename", filename), ("nchar", nchar)):
+            want = given[f] if given[f] is not None else sup
             if getattr(e, f) != want:
-                bad.append(f"unit level: error.{f} == {getattr(e, f)!r}, supplied {want!r}")
+                bad.append(f"unit level: processor raised TextXError({given}); error.{f} == "
+                           f"{getattr(e, f)!r}, expected {want!r} (supplied location {sup!r})")
     # end to end (property statement: nchar equals the object's text length)
     mm2 = metamodel_from_str("Model: items+=Item; Item: 'item' name=ID;")
 
